@@ -347,6 +347,15 @@ class Interp:
             if any(v is U for v in a_) or any(v is U for v in kw_.values()):
                 return U
             return native.fn(*a_, **kw_)
+        if isinstance(e.func, ast.Attribute) and e.func.attr == "format" and e.keywords:
+            # "...{name}...".format(name=..): keywords (and positionals) are constants
+            recv = self.ev(e.func.value)
+            if isinstance(recv, str):
+                a_ = [self.ev(a) for a in e.args if not isinstance(a, ast.Starred)]
+                kw_ = {k.arg: self.ev(k.value) for k in e.keywords if k.arg is not None}
+                if len(a_) == len(e.args) and len(kw_) == len(e.keywords) and all(v is not U and not isinstance(v, (NS, Obj, Tok)) for v in a_ + list(kw_.values())):
+                    return recv.format(*a_, **kw_)
+            return U
         if isinstance(e.func, ast.Attribute) and e.func.attr == "sort" and e.keywords and not e.args:
             # xs.sort(key=lambda .., reverse=..): sorted() on the same arguments, stored back in place
             lst = self.ev(e.func.value)
